@@ -24,7 +24,8 @@ PID = "C02"
 TITLE = "Evaluation is lazy: demand-driven consumption and bounded buffering"
 LEAN_MODULES = ["LenaModel.Props.C02"]
 LEAN_SOURCES = ["LenaModel/Model/C02.lean", "LenaModel/Lemmas/C02.lean", "LenaModel/Lemmas/C02Neg.lean",
-                "LenaModel/Lemmas/C02Split.lean", "LenaModel/Lemmas/C02Spec.lean", "LenaModel/Props/C02.lean"]
+                "LenaModel/Lemmas/C02Split.lean", "LenaModel/Lemmas/C02Spec.lean", "LenaModel/Lemmas/C02Sim.lean",
+                "LenaModel/Props/C02.lean"]
 DRIVER = "drivers/C02.lean"
 THEOREMS = [
     # the property's main sentences
@@ -39,6 +40,18 @@ THEOREMS = [
     "Lena.C02.stage_refines_list",
     "Lena.C02.pipeline_values",
     "Lena.C02.slice_after_infinite_terminates",
+    # infinite inputs and prefix determinacy, for every pipeline (simulation argument, Lemmas/C02Sim.lean)
+    "Lena.C02.pipeline_lazy_infinite",
+    "Lena.C02.pipeline_prefix_determined",
+    "Lena.C02.source_pipeSim",
+    "Lena.C02.prefix_pipeSim",
+    "Lena.C02.seq_pipeSim",
+    "Lena.C02.stage_pipeSim",
+    "Lena.C02.take_sim",
+    "Lena.C02.split_none_never_returns",
+    # the hypotheses in executable form (evaluated by the driver on every case)
+    "Lena.C02.Stage.wfb_iff",
+    "Lena.C02.seqFuelOKb_iff",
     # what the stage functions say about pulls
     "Lena.C02.ofList_need",
     "Lena.C02.map_pulls",
@@ -53,6 +66,8 @@ THEOREMS = [
     "Lena.C02.splitSpecGo_block",
     # bounded buffering
     "Lena.C02.split_buffer_bound",
+    "Lena.C02.split_retention_bound",
+    "Lena.C02.count_held_bound",
     "Lena.C02.negslice_held_bound",
     # the machines realise the stage functions
     "Lena.C02.listSrc_produces",
@@ -860,7 +875,8 @@ def g_stage(rng, pairs, names, infinite):
     if r < 0.87:
         return g_runif(rng, pairs, 1, names)
     st = g_split(rng, pairs, names, infinite)
-    if not st["copy"] and (pairs or any(b["k"] == "fc" for b in st["branches"])):
+    if not st["copy"] and (pairs or '"count"' in json.dumps(st["branches"]) or
+                           any(b["k"] == "fc" for b in st["branches"])):
         # without copies the branches share the context dictionaries of the values, and Count writes into the
         # context of the last value it saw: aliasing is C04's subject, not this property's
         st["copy"] = True
@@ -954,7 +970,7 @@ def gen_cases(ctx):
             for n in ((0, 1, 3, 7) if tier == "quick" else (0, 1, 2, 3, 5, 7, 9)):
                 yield mk_case([s1, s2], n, ks=[0, 1, 2] if tier == "quick" else list(range(n + 2)))
             yield mk_case([s1, s2], None, K=4, ks=[0, 2])
-    nrand = 4000 if tier == "quick" else 60000
+    nrand = 4000 if tier == "quick" else 120000
     for _ in range(nrand):
         yield random_case(rng, tier)
 
@@ -970,6 +986,11 @@ def nontrivial(case, res):
 def classify(case, res):
     labels = ["len=%d" % len(case["stages"]), "input=" + ("infinite" if case["n"] is None else "finite"),
               "end=" + res.get("end", "?"), "via=" + case.get("via", "sequence")]
+    if case["n"] is not None and res.get("end") == "exhausted":
+        # sanity of the oracle's reference computation: on this tree it predicts the recorded trace exactly
+        (c0, rv, rcf), _ = reference(case)
+        exact = [[v[0], v[1], c] for v, c in rv] == res["r"] and rcf == res["clock"]
+        labels.append("reference=" + ("exact" if exact else "differs"))
     for st in case["stages"]:
         t = st["t"]
         if t == "map":
@@ -981,7 +1002,7 @@ def classify(case, res):
         elif t == "split":
             labels.append("el:split")
             for b in st["branches"]:
-                labels.append("branch:" + b["k"])
+                labels.append("branch:" + b["k"] + (":explicit" if b.get("explicit") else ""))
         else:
             labels.append("el:" + t)
     return sorted(set(labels))
@@ -1019,8 +1040,9 @@ RULE = ("quick and thorough: fixed cases (documented examples; negative Slice ov
         "fill/compute branch that stops, over finite and infinite inputs), every single Slice with start, stop in "
         "{None,-3..3}, step in {None,1,2} over short flows, every ordered pair of a 17-element palette of streaming "
         "elements over finite and infinite inputs, and seeded random pipelines (0..4 elements: callables, Variable, "
-        "Print, Context, UpdateContext, MakeFilename, Filter, Slice, Count, RunIf, Split with sequence and "
-        "fill/compute branches; 4000 quick / 60000 thorough; a quarter of them run as Source(input, *elements)()), each with a long run and runs for consumer stop points "
+        "Print, Context, UpdateContext, MakeFilename, Filter, Slice, Count, RunIf (also with Count inside, also given a "
+        "Selector and a Sequence), Split with sequence, fill/compute (tuple or explicit FillComputeSeq, FillInto(Count) "
+        "before the fill/compute element) and Source branches, bufsize 1..5, 1000, None; 4000 quick / 120000 thorough; a quarter of them run as Source(input, *elements)()), each with a long run and runs for consumer stop points "
         "(quick: 3 per case, thorough: every k = 0..n+1). Non-trivial: at least one element and one result.")
 TRUSTED = [
     "Lean 4.33.0 kernel; axioms limited to propext, Classical.choice, Quot.sound (audited by #print axioms on every run)",
